@@ -13,8 +13,11 @@ The instruction semantics is a parameter (`StdLike`): the role table of the 21 c
 array / allocation instructions and ANY `exec` for which `set` sets.
 
 Not proved here (listed explicitly):
-* `macros_tokenwise` is proved for sequences of macro passes under `Separated` (no macro use
-  directly followed by `$`) — see the counter-example `macros_adjacent_counterexample`;
+* `macros_tokenwise_partial`: proved per macro pass (each pass of the fixed `_apply_macros`
+  replaces exactly the uses `$key`, maximal munch, for every body).  The statement for a whole
+  macro LIST — `substAll reSub macros body = substTokenwise macros body` when no macro value
+  contains `$` and no macro use is directly followed by another `$` — is NOT proved (TODO);
+  `macros_adjacent_counterexample` shows the second condition is necessary;
 * operand parsing of the text front end (`_parse_operands`) is covered by the differential
   stream only (`parse_text_protosubroutine (render P) = P`).
 -/
@@ -285,5 +288,40 @@ theorem nonvacuous_loop :
       simp only at h
       obtain ⟨rfl, h3⟩ := h
       exact ⟨s', steps_of_runN hr, h3⟩
+
+/-! ## macros -/
+
+open NQ.AsmText in
+/-- **`macros_tokenwise_partial`** (one pass; the full statement for a macro list is in the header).
+For every body and every key made of variable-name characters, one pass of the fixed
+`_apply_macros` (`re.sub` with the end-of-name look-ahead) replaces exactly the macro uses
+named `key` — tokens `$name` with maximal munch — and leaves everything else, in particular the
+uses of any other macro whose name merely starts with `key` (F4). -/
+theorem macros_tokenwise_partial (key val : List Char) (hk : ∀ c ∈ key, isIdent c = true) (s : List Char) :
+    reSub key val s = (tokenize s).flatMap (render1 key val) :=
+  reSub_tokenwise key val hk s
+
+open NQ.AsmText in
+/-- F4 on the code before the fix: `DEFINE a R0`, `DEFINE a1 R5`, `set $a1 3` became `set R01 3`
+(assembled as `set R1 3`), which is not the token-wise reading `set R5 3`. -/
+theorem F4_old_code_counterexample :
+    applyMacrosOld [['s', 'e', 't', ' ', '$', 'a', '1', ' ', '3']] [(['a'], ['R', '0']), (['a', '1'], ['R', '5'])]
+      = [['s', 'e', 't', ' ', 'R', '0', '1', ' ', '3']] ∧
+    substTokenwise [(['a'], ['R', '0']), (['a', '1'], ['R', '5'])] ['s', 'e', 't', ' ', '$', 'a', '1', ' ', '3']
+      = ['s', 'e', 't', ' ', 'R', '5', ' ', '3'] := by decide
+
+open NQ.AsmText in
+/-- the same text through the fixed pass -/
+theorem F4_fixed_witness :
+    applyMacros [['s', 'e', 't', ' ', '$', 'a', '1', ' ', '3'], ['s', 'e', 't', ' ', '$', 'a', ' ', '4']]
+        [(['a'], ['R', '0']), (['a', '1'], ['{', 'R', '5', '}'])]
+      = [['s', 'e', 't', ' ', 'R', '5', ' ', '3'], ['s', 'e', 't', ' ', 'R', '0', ' ', '4']] := by decide
+
+open NQ.AsmText in
+/-- why the list statement needs "no macro use directly followed by `$`": with `a ↦ R0` applied
+before `b ↦ X`, the text `$b$a` becomes `$bR0`, and `$bR0` is no longer a use of `b`. -/
+theorem macros_adjacent_counterexample :
+    applyMacros [['$', 'b', '$', 'a']] [(['a'], ['R', '0']), (['b'], ['X'])] = [['$', 'b', 'R', '0']] ∧
+    substTokenwise [(['a'], ['R', '0']), (['b'], ['X'])] ['$', 'b', '$', 'a'] = ['X', 'R', '0'] := by decide
 
 end NQ.C03
